@@ -355,6 +355,8 @@ class Gen:
             body = " + ".join(t for t, _, _ in body_terms)
             kind = r.choice(["func", "func", "method", "methodval", "methodexpr", "funcvar", "generic", "initmethod", "ptr", "chain",
                              "promoted", "generictype"])
+            if ("dep:" + kind) in self.avoid:
+                kind = "func"         # probe + avoid: the construct is covered by a fixed probe of an open finding
             if kind == "func":
                 add("func %s() int { return %s }\n" % (h, body), users, std)
                 e = "%s()" % h
